@@ -51,7 +51,7 @@ def c_member_expr(leaf: ref.Leaf) -> str:
     return "".join(out)
 
 
-def render_c_files(main_path: str, outdir: str, optimize=False, endian="both", filter_messages=None) -> Dict[str, str]:
+def render_c_files(main_path: str, outdir: str, optimize=False, endian="both", filter_messages=None, lint=False) -> Dict[str, str]:
     """Compile main schema + every imported schema to C the way a user does (each file parsed
     on its own).  Returns {file name: text}."""
     out = {}
@@ -66,6 +66,9 @@ def render_c_files(main_path: str, outdir: str, optimize=False, endian="both", f
         for _, child in p.protos(recursive=False):
             rec(child, False)
         q = p if top else parse_file(p.filepath, traditional_mode=optimize)
+        if lint:
+            from .pyback import lint_quietly
+            lint_quietly(q)
         for cls in renderer_classes("c"):
             kw = {}
             if optimize:
